@@ -1,2 +1,35 @@
-(* C20 - property statements (theorems are being added) *)
-From Asherah Require Import Envelope.Session.
+(* C20 - key caching avoids external calls, for one revoke-check interval.  For EVERY cache state, key meta and
+   loader: a fresh cached key (cached flag revoked, or loaded at most one interval ago) is handed out without any
+   boundary call - the loader is never consulted, the metastore, KMS, AEAD and allocator are not touched - on the
+   decrypt path (C20_fresh_hit_decrypt) and, when the key is valid, on the encrypt path (C20_fresh_hit_encrypt);
+   a stale or missing entry makes the cache run its load path exactly once (C20_stale_loads).
+   What "fresh" means is C20_fresh_means. *)
+From Asherah Require Import Envelope.Session Envelope.CacheCalls.
+
+Theorem C20_fresh_hit_decrypt : forall cid rci meta loader w k w1 o,
+  kc_get_fresh cid rci meta w = (inr (Some (k, true)), w1) -> nth_error (w_kobjs w1) k = Some o ->
+  let r := get_or_load (Some cid) rci meta loader w in
+  fst r = inr k /\ w_calls (snd r) = w_calls w /\ w_trace (snd r) = w_trace w /\ w_store (snd r) = w_store w.
+Proof. exact get_or_load_fresh_hit. Qed.
+Print Assumptions C20_fresh_hit_decrypt.
+
+Theorem C20_fresh_hit_encrypt : forall cid rci ex id loader w k w1 w2,
+  kc_get_fresh cid rci {| km_id := id; km_created := 0 |} w = (inr (Some (k, true)), w1) ->
+  is_key_invalid k ex w1 = (inr false, w2) ->
+  let r := get_or_load_latest (Some cid) rci ex id loader w in
+  fst r = inr k /\ w_calls (snd r) = w_calls w /\ w_trace (snd r) = w_trace w /\ w_store (snd r) = w_store w.
+Proof. exact get_or_load_latest_fresh_hit. Qed.
+Print Assumptions C20_fresh_hit_encrypt.
+
+Theorem C20_stale_loads : forall cid rci meta loader w r1 w1 r2 w2,
+  kc_get_fresh cid rci meta w = (inr r1, w1) -> (forall k, r1 <> Some (k, true)) ->
+  kc_get_fresh cid rci meta w1 = (inr r2, w2) -> (forall k, r2 <> Some (k, true)) ->
+  get_or_load (Some cid) rci meta loader w = (k <- kc_load cid meta loader ;; cck_increment k ;;; ret k) w2.
+Proof. exact get_or_load_stale_loads. Qed.
+Print Assumptions C20_stale_loads.
+
+Theorem C20_fresh_means : forall e rci w b w',
+  reload_required e rci w = (inr b, w') ->
+  exists o, nth_error (w_kobjs w) (ce_key e) = Some o /\ b = (if ko_revoked o then false else ce_loaded e + rci <? w_now w).
+Proof. exact reload_required_spec. Qed.
+Print Assumptions C20_fresh_means.
